@@ -11,6 +11,11 @@ import sys
 
 HERE = os.path.dirname(os.path.dirname(os.path.abspath(__file__)))
 suffix = sys.argv[1]
+HINT = ''
+if '--hint' in sys.argv:
+    k_ = sys.argv.index('--hint')
+    HINT = sys.argv[k_ + 1] + ' '
+    del sys.argv[k_:k_ + 2]
 props = {}
 for ln in open(os.path.join(HERE, 'properties.jsonl')):
     p = json.loads(ln)
@@ -47,7 +52,7 @@ The property (a semantic guarantee users of the library rely on):
 
 It is claimed {p['quantifier']['text']}.
 
-This property has been attacked many times before. The defects below were already produced by other people; do NOT reuse their mechanisms or trigger conditions. Find NEW ones. Read the whole code path the behaviour passes through first (helpers, shared utilities in other modules, constructors, __init__ files, code that prepares inputs or post-processes results, operators and dunder methods, default arguments) and look at EVERY clause and every quantifier of the property, including the ones nobody attacked yet. Think about: state that survives between calls; objects shared between two structures; aliasing of lists handed out or taken in; iteration while mutating; ids / names / values that are falsy, negative, very large, equal-but-not-identical, of an unexpected but legal type; empty and one-element inputs; deep nesting and many siblings; several WBSs, resources or calendars at once; options and argument forms that are rarely used; exact boundaries (midnight, week ends, validity bounds, zero, equality); the order in which things were built. Prefer defects whose trigger is a conjunction of two or three independent conditions:
+This property has been attacked many times before. The defects below were already produced by other people; do NOT reuse their mechanisms or trigger conditions. Find NEW ones. Read the whole code path the behaviour passes through first (helpers, shared utilities in other modules, constructors, __init__ files, code that prepares inputs or post-processes results, operators and dunder methods, default arguments) and look at EVERY clause and every quantifier of the property, including the ones nobody attacked yet. Think about: state that survives between calls; objects shared between two structures; aliasing of lists handed out or taken in; iteration while mutating; ids / names / values that are falsy, negative, very large, equal-but-not-identical, of an unexpected but legal type; empty and one-element inputs; deep nesting and many siblings; several WBSs, resources or calendars at once; options and argument forms that are rarely used; exact boundaries (midnight, week ends, validity bounds, zero, equality); the order in which things were built. {HINT}Prefer defects whose trigger is a conjunction of two or three independent conditions:
 {chr(10).join(used)}
 
 Your job: produce THREE different source changes to the library (call them patch1, patch2 and patch3, different mechanisms, each a small edit of 1-10 lines such as a realistic programmer slip: a dropped or inverted check, an off-by-one, a wrong variable, a missing mirror update, a swapped order of two statements, a boundary comparison, a lost special case, a "harmless" simplification or optimisation), each of which
